@@ -89,6 +89,7 @@ def generate(R, tier):
         # markers outside them extrapolated); plain or extended map class
         sc["knots"] = R.choice(["coincide", "coincide", "sparse"])
         sc["mapcls"] = R.choice(["standard", "standard", "extended"])
+        sc["maprows"] = R.choice(["sorted", "sorted", "unsorted"])
         sc["mapfn"] = R.choice(["haldane", "haldane", "kosambi"])
         # history: the matrix may have been mapped before, onto another map and/or with another map function
         sc["remap"] = None if R.random() < 0.6 else {"factor": R.choice([0.25, 0.5, 2.0, 3.0]), "mapfn": R.choice(["haldane", "kosambi"])}
@@ -96,7 +97,7 @@ def generate(R, tier):
 
 
 def shrink(sc):
-    for k, plain in (("shuffled", False), ("knots", "coincide"), ("mapcls", "standard"), ("mapfn", "haldane")):
+    for k, plain in (("shuffled", False), ("knots", "coincide"), ("mapcls", "standard"), ("maprows", "sorted"), ("mapfn", "haldane")):
         if sc.get(k) not in (None, plain):
             c = copy.deepcopy(sc)
             c[k] = plain
@@ -192,9 +193,15 @@ def _parents(sc, chrgrp, phypos, genpos, xo, ntaxa, hetero):
         kc, kp, kg = (KNOTS["chr"], KNOTS["phy"], KNOTS["gen"]) if KNOTS else (chrgrp, phypos, genpos)
 
         def mkmap(gen):
+            o = numpy.arange(len(kp))
+            kw = {}
+            if sc.get("maprows") == "unsorted":
+                # a map whose rows are in arbitrary order and that is not sorted on construction
+                random.Random(sc["seed"] + 29).shuffle(o)
+                kw["auto_group"] = False
             if sc.get("mapcls") == "extended":
-                return ExtendedGeneticMap(vrnt_chrgrp=kc, vrnt_phypos=kp, vrnt_stop=kp, vrnt_genpos=gen)
-            return StandardGeneticMap(vrnt_chrgrp=kc, vrnt_phypos=kp, vrnt_genpos=gen)
+                return ExtendedGeneticMap(vrnt_chrgrp=kc[o], vrnt_phypos=kp[o], vrnt_stop=kp[o], vrnt_genpos=numpy.asarray(gen)[o], **kw)
+            return StandardGeneticMap(vrnt_chrgrp=kc[o], vrnt_phypos=kp[o], vrnt_genpos=numpy.asarray(gen)[o], **kw)
         gmap = mkmap(kg)
         # a chromosome needs two map points for a spline; pad single-marker chromosomes
         try:
@@ -203,8 +210,8 @@ def _parents(sc, chrgrp, phypos, genpos, xo, ntaxa, hetero):
                 old = mkmap(kg * rm["factor"])
                 pg.interp_xoprob(old, MAPFN[rm["mapfn"]]())
             pg.interp_xoprob(gmap, MAPFN[sc.get("mapfn", "haldane")]())
-        except Exception:
-            return None
+        except Exception as e:
+            return "raised %s: %s" % (type(e).__name__, str(e)[:160])
     return pg
 
 
@@ -301,7 +308,11 @@ def execute(sc):
     if kind in ("strat-low", "real-map"):
         pg = _parents(sc, chrgrp, phypos, genpos, xo, 1, True)
         if isinstance(pg, str):
-            V.append(viol("markers-sorted-with-their-data", "DensePhasedGenotypeMatrix.group_vrnt", "order", "grouping a matrix built from shuffled markers did not restore map order"))
+            if pg == "misordered":
+                V.append(viol("markers-sorted-with-their-data", "DensePhasedGenotypeMatrix.group_vrnt", "order", "grouping a matrix built from shuffled markers did not restore map order"))
+            else:
+                V.append(viol("map-assignment-completes", "DensePhasedGenotypeMatrix.interp_xoprob", pg.split(":")[0].replace(" ", ":"),
+                              "assigning crossover probabilities from a %s map (%s rows, %s points, %s) %s" % (sc.get("mapcls"), sc.get("maprows"), sc.get("knots"), sc.get("mapfn"), pg)))
             return _out(sc, V, log, faults, probes, 0, g)
         if pg is None:
             return _out(sc, V, log, faults, probes, 0, g)
@@ -327,7 +338,11 @@ def execute(sc):
         hetero = not isdh and not (sc.get("inbred") and sc["prot"] in ("3w", "4w"))
         pg = _parents(sc, chrgrp, phypos, genpos, xo, 4, hetero)
         if isinstance(pg, str):
-            V.append(viol("markers-sorted-with-their-data", "DensePhasedGenotypeMatrix.group_vrnt", "order", "grouping a matrix built from shuffled markers did not restore map order"))
+            if pg == "misordered":
+                V.append(viol("markers-sorted-with-their-data", "DensePhasedGenotypeMatrix.group_vrnt", "order", "grouping a matrix built from shuffled markers did not restore map order"))
+            else:
+                V.append(viol("map-assignment-completes", "DensePhasedGenotypeMatrix.interp_xoprob", pg.split(":")[0].replace(" ", ":"),
+                              "assigning crossover probabilities from a %s map (%s rows, %s points, %s) %s" % (sc.get("mapcls"), sc.get("maprows"), sc.get("knots"), sc.get("mapfn"), pg)))
             return _out(sc, V, log, faults, probes, 0, g)
         if pg is None:
             return _out(sc, V, log, faults, probes, 0, g)
@@ -390,7 +405,11 @@ def execute(sc):
         C = cls.__name__ + ".mate->SelfCross.mate"
         pg = _parents(sc, chrgrp, phypos, genpos, xo, 4, False)
         if isinstance(pg, str):
-            V.append(viol("markers-sorted-with-their-data", "DensePhasedGenotypeMatrix.group_vrnt", "order", "grouping a matrix built from shuffled markers did not restore map order"))
+            if pg == "misordered":
+                V.append(viol("markers-sorted-with-their-data", "DensePhasedGenotypeMatrix.group_vrnt", "order", "grouping a matrix built from shuffled markers did not restore map order"))
+            else:
+                V.append(viol("map-assignment-completes", "DensePhasedGenotypeMatrix.interp_xoprob", pg.split(":")[0].replace(" ", ":"),
+                              "assigning crossover probabilities from a %s map (%s rows, %s points, %s) %s" % (sc.get("mapcls"), sc.get("maprows"), sc.get("knots"), sc.get("mapfn"), pg)))
             return _out(sc, V, log, faults, probes, 0, g)
         if pg is None:
             return _out(sc, V, log, faults, probes, 0, g)
@@ -420,7 +439,11 @@ def execute(sc):
         C = cls.__name__ + ".mate"
         pg = _parents(sc, chrgrp, phypos, genpos, xo, 4, False)
         if isinstance(pg, str):
-            V.append(viol("markers-sorted-with-their-data", "DensePhasedGenotypeMatrix.group_vrnt", "order", "grouping a matrix built from shuffled markers did not restore map order"))
+            if pg == "misordered":
+                V.append(viol("markers-sorted-with-their-data", "DensePhasedGenotypeMatrix.group_vrnt", "order", "grouping a matrix built from shuffled markers did not restore map order"))
+            else:
+                V.append(viol("map-assignment-completes", "DensePhasedGenotypeMatrix.interp_xoprob", pg.split(":")[0].replace(" ", ":"),
+                              "assigning crossover probabilities from a %s map (%s rows, %s points, %s) %s" % (sc.get("mapcls"), sc.get("maprows"), sc.get("knots"), sc.get("mapfn"), pg)))
             return _out(sc, V, log, faults, probes, 0, g)
         if pg is None:
             return _out(sc, V, log, faults, probes, 0, g)
@@ -481,6 +504,6 @@ def _out(sc, V, log, faults, probes, ncmp, g):
     if not sc["kind"].startswith("strat"):
         f["real_prng_design"] = 1
     trace = "%s|%s|chr%d|%s|self%s|%s|%s|%s|%s|%s|%s" % (sc["kind"], sc.get("fn") or sc.get("prot"), sc["nchr"], sc["xosrc"], sc.get("nself"), sc.get("mapfn"), sc.get("knots"),
-                                                   sc.get("mapcls"), "remap" if sc.get("remap") else "-", "shuf" if sc.get("shuffled") else "-", "inbred" if sc.get("inbred") else "-")
+                                                   (sc.get("mapcls") or "-") + ("/u" if sc.get("maprows") == "unsorted" else ""), "remap" if sc.get("remap") else "-", "shuf" if sc.get("shuffled") else "-", "inbred" if sc.get("inbred") else "-")
     return {"violations": V, "log": log, "trace": trace, "nontrivial": ncmp > 0, "faults": f, "probes": probes,
             "sim": {"gametes": sc["N"], "frequency_comparisons": ncmp}}
